@@ -14,8 +14,8 @@ from ginsim import probes, shrink, world
 
 ID = 'C08'
 LEVEL = 'exploration'
-QUICK_RUNS = 3000
-THOROUGH_RUNS = 60000
+QUICK_RUNS = 8000
+THOROUGH_RUNS = 200000
 SHRINK_BUDGET = 250
 RULE = ('run i draws from Random("<seed>/C08/<i>") (A) 5-40 SelectorMap '
         'operations (insert / pop / copy / clear on the original and up to 3 '
